@@ -65,7 +65,7 @@ def django_load(inst):
     M.Org.objects.bulk_create([M.Org(id=o["id"], name=o["name"], size=o.get("size"), region_id=o.get("region"))
                                for o in inst.get("orgs", [])])
     M.Owner.objects.bulk_create([M.Owner(id=o["id"], name=o["name"], age=o.get("age"), rank=o.get("rank", 0),
-                                         org_id=o.get("org"))
+                                         org_id=o.get("org"), region_id=o.get("region"))
                                  for o in inst.get("owners", [])])
     M.Tag.objects.bulk_create([M.Tag(id=t["id"], label=t["label"], n=t["n"]) for t in inst.get("tags", [])])
     items = []
@@ -163,7 +163,9 @@ def sqlalchemy_models():
         age = sa.Column(sa.Integer)
         rank = sa.Column(sa.Integer, nullable=False, default=0)
         org_id = sa.Column(sa.ForeignKey("org.id"))
+        region_id = sa.Column(sa.ForeignKey("region.id"))
         org = relationship("Org", back_populates="owners")
+        region = relationship("Region")
         items = relationship("Item", back_populates="owner")
 
     class Tag(Base):
@@ -244,7 +246,7 @@ def sqlalchemy_load(inst):
                                               "region_id": o.get("region")} for o in inst["orgs"]])
     if inst.get("owners"):
         c.execute(S.Owner.__table__.insert(), [{"id": o["id"], "name": o["name"], "age": o.get("age"),
-                                                "rank": o.get("rank", 0), "org_id": o.get("org")} for o in inst["owners"]])
+                                                "rank": o.get("rank", 0), "org_id": o.get("org"), "region_id": o.get("region")} for o in inst["owners"]])
     if inst.get("tags"):
         c.execute(S.Tag.__table__.insert(), [{"id": t["id"], "label": t["label"], "n": t["n"]} for t in inst["tags"]])
     rows = []
